@@ -622,18 +622,18 @@ func runR06_4(c *Ctx, r *R) {
 
 // allow-list of explicit panics in package mpx: function -> reason
 var mpxPanics = map[string]string{
-	"mpx.channel.Free":          "API misuse by the owner (double Free), raised in the caller's goroutine, documented",
-	"mpx.channel.free":          "reference already released: unreachable while R06.2 holds (one releaser per map entry)",
-	"mpx.channel.acquire":       "use after Free by the owner of the handle, raised in the caller's goroutine; never on the receive path (R06.1)",
-	"mpx.channel.tryAcquire":    "state nil with a positive reference count: unreachable, the state is cleared only when the count reaches zero",
-	"mpx.channel.release":       "double release: unreachable while R06.2 holds",
-	"mpx.channel.closeUser":     "unexpected status class from the local write queue: declared unreachable; statuses of a closed connection are in the accepted set",
-	"mpx.channelState.open":     "opening a server-side channel: internal misuse, server channels are created opened",
-	"mpx.connReader.initLZ4":    "double initialisation during the handshake: internal misuse",
-	"mpx.connWriter.initLZ4":    "double initialisation during the handshake: internal misuse",
-	"mpx.server.listen":         "listener already set: internal misuse",
-	"mpx.channelContext.Free":   "double Free of a context",
-	"mpx.context.Free":          "double Free of a context",
+	"mpx.channel.Free":           "API misuse by the owner (double Free), raised in the caller's goroutine, documented",
+	"mpx.channel.free":           "reference already released: unreachable while R06.2 holds (one releaser per map entry)",
+	"mpx.channel.acquire":        "use after Free by the owner of the handle, raised in the caller's goroutine; never on the receive path (R06.1)",
+	"mpx.channel.tryAcquire":     "state nil with a positive reference count: unreachable, the state is cleared only when the count reaches zero",
+	"mpx.channel.release":        "double release: unreachable while R06.2 holds",
+	"mpx.channel.closeUser":      "unexpected status class from the local write queue: declared unreachable; statuses of a closed connection are in the accepted set",
+	"mpx.channelState.open":      "opening a server-side channel: internal misuse, server channels are created opened",
+	"mpx.connReader.initLZ4":     "double initialisation during the handshake: internal misuse",
+	"mpx.connWriter.initLZ4":     "double initialisation during the handshake: internal misuse",
+	"mpx.server.listen":          "listener already set: internal misuse",
+	"mpx.channelContext.Free":    "double Free of a context",
+	"mpx.context.Free":           "double Free of a context",
 	"mpx.clientConns.roundRobin": "",
 }
 
